@@ -7,7 +7,7 @@
    comb / fuel / the script [evs] quantify over every reader behaviour (arbitrary
    chunking, 0-byte reads, an error at any offset, data together with EOF/error).
    [matches_desc H dg sz bs] = length bs = sz /\ dg = alg:H alg bs /\ dg is a valid digest. *)
-From Oras Require Import Base.Prelude Generated.GC05 Model.Verify Proofs.Verify Proofs.VerifyComplete Proofs.VerifyProxy Proofs.VerifyFuel Proofs.VerifyConc Proofs.VerifyTop.
+From Oras Require Import Base.Prelude Generated.GC05 Model.Verify Proofs.Verify Proofs.VerifyComplete Proofs.VerifyProxy Proofs.VerifyFuel Proofs.VerifyConc Proofs.VerifyTop Proofs.VerifyWriter Proofs.VerifyNames Proofs.VerifyFileConc Proofs.VerifyOpts Proofs.VerifyChunk Proofs.VerifyEof.
 
 (* ReadAll hands back data only when length and digest match and the reader held
    nothing else *)
@@ -16,7 +16,7 @@ Theorem C05_readall :
     read_all H comb fixed fuel src dg sz = ((None, buf), v) ->
     matches_desc H dg sz buf /\
     (exists rest, stream (b_evs src) = buf ++ rest) /\
-    (b_lim src = None -> stream (b_evs src) = buf).
+    (b_lim src = None -> neof (b_evs src) = 0%nat -> stream (b_evs src) = buf).
 Proof. exact read_all_sound. Qed.
 Print Assumptions C05_readall.
 
@@ -25,7 +25,7 @@ Print Assumptions C05_readall.
    that does not have the descriptor yet stores it *)
 Theorem C05_readall_complete :
   forall (H : str -> str -> str) comb fixed fuel evs dg,
-    nfail evs = 0%nat -> valid_digest dg = true -> dg = digest_of H (alg_of dg) (stream evs) ->
+    (nfail evs + neof evs = 0)%nat -> valid_digest dg = true -> dg = digest_of H (alg_of dg) (stream evs) ->
     (ev_weight evs < fuel)%nat ->
     fst (read_all H comb fixed fuel (mkBase evs None) dg (Z.of_nat (length (stream evs))))
     = (None, stream evs).
@@ -34,7 +34,7 @@ Print Assumptions C05_readall_complete.
 
 Theorem C05_push_memory_complete :
   forall (H : str -> str -> str) comb fixed fuel m d evs,
-    mem_get m d = None -> nfail evs = 0%nat -> valid_digest (d_dg d) = true ->
+    mem_get m d = None -> (nfail evs + neof evs = 0)%nat -> valid_digest (d_dg d) = true ->
     d_dg d = digest_of H (alg_of (d_dg d)) (stream evs) -> d_sz d = Z.of_nat (length (stream evs)) ->
     (ev_weight evs < fuel)%nat ->
     mem_push H comb fixed fuel m d (mkBase evs None) = (None, (d, stream evs) :: m).
@@ -45,7 +45,7 @@ Print Assumptions C05_push_memory_complete.
    that does not hold the digest yet *)
 Theorem C05_copybuffer_complete :
   forall (H : str -> str -> str) comb fuel evs bufsz dg,
-    (1 <= bufsz)%nat -> nfail evs = 0%nat -> valid_digest dg = true ->
+    (1 <= bufsz)%nat -> (nfail evs + neof evs = 0)%nat -> valid_digest dg = true ->
     dg = digest_of H (alg_of dg) (stream evs) -> (ev_weight evs < fuel)%nat ->
     fst (copy_buffer H comb true fuel (mkBase evs None) bufsz dg (Z.of_nat (length (stream evs))))
     = (None, stream evs).
@@ -54,7 +54,7 @@ Print Assumptions C05_copybuffer_complete.
 
 Theorem C05_push_oci_complete :
   forall (H : str -> str -> str) comb fuel s d evs,
-    oci_get s (d_dg d) = None -> nfail evs = 0%nat -> valid_digest (d_dg d) = true ->
+    oci_get s (d_dg d) = None -> (nfail evs + neof evs = 0)%nat -> valid_digest (d_dg d) = true ->
     d_dg d = digest_of H (alg_of (d_dg d)) (stream evs) -> d_sz d = Z.of_nat (length (stream evs)) ->
     (ev_weight evs < fuel)%nat ->
     oci_push H comb true fuel s d (mkBase evs None) = (None, (d_dg d, stream evs) :: s).
@@ -66,7 +66,7 @@ Print Assumptions C05_push_oci_complete.
 Theorem C05_push_file_complete :
   forall (H : str -> str -> str) comb fuel s name path d evs,
     name <> [] -> name_in name (f_names s) = false ->
-    nfail evs = 0%nat -> valid_digest (d_dg d) = true ->
+    (nfail evs + neof evs = 0)%nat -> valid_digest (d_dg d) = true ->
     d_dg d = digest_of H (alg_of (d_dg d)) (stream evs) -> d_sz d = Z.of_nat (length (stream evs)) ->
     (ev_weight evs < fuel)%nat ->
     file_push H comb true fuel s name path d evs
@@ -77,7 +77,7 @@ Print Assumptions C05_push_file_complete.
 
 Theorem C05_push_limited_complete :
   forall (H : str -> str -> str) comb fixed fuel limit m d evs,
-    (d_sz d <= limit)%Z -> mem_get m d = None -> nfail evs = 0%nat -> valid_digest (d_dg d) = true ->
+    (d_sz d <= limit)%Z -> mem_get m d = None -> (nfail evs + neof evs = 0)%nat -> valid_digest (d_dg d) = true ->
     d_dg d = digest_of H (alg_of (d_dg d)) (stream evs) -> d_sz d = Z.of_nat (length (stream evs)) ->
     (ev_weight evs < fuel)%nat ->
     limited_push (mem_push H comb fixed fuel) limit m d evs = (None, (d, stream evs) :: m).
@@ -87,7 +87,7 @@ Print Assumptions C05_push_limited_complete.
 Theorem C05_push_file_fallback_complete :
   forall (H : str -> str -> str) comb fuel s path d evs,
     (d_sz d <= defaultFallbackPushSizeLimit)%Z -> mem_get (f_fb s) d = None ->
-    nfail evs = 0%nat -> valid_digest (d_dg d) = true ->
+    (nfail evs + neof evs = 0)%nat -> valid_digest (d_dg d) = true ->
     d_dg d = digest_of H (alg_of (d_dg d)) (stream evs) -> d_sz d = Z.of_nat (length (stream evs)) ->
     (ev_weight evs < fuel)%nat ->
     file_push H comb true fuel s [] path d evs
@@ -104,6 +104,17 @@ Theorem C05_fetchall :
 Proof. exact C05_fetchall_l. Qed.
 Print Assumptions C05_fetchall.
 
+(* FetchAll on the built-in stores (the model's FetchAll, which the correspondence runs
+   after every push and on the final state) *)
+Theorem C05_fetchall_stores :
+  forall (H : str -> str -> str),
+  (forall m d b, mem_fetch_all H m d = (None, b) -> mem_get m d = Some b /\ matches_desc H (d_dg d) (d_sz d) b) /\
+  (forall s d b, oci_fetch_all H s d = (None, b) -> oci_get s (d_dg d) = Some b /\ matches_desc H (d_dg d) (d_sz d) b) /\
+  (forall s name d b, file_fetch_all H s name d = (None, b) ->
+                      file_fetch s name d = Some b /\ matches_desc H (d_dg d) (d_sz d) b).
+Proof. exact fetch_all_stores. Qed.
+Print Assumptions C05_fetchall_stores.
+
 (* any use of a VerifyReader (any sequence of Read(k) and Verify calls): once
    Verify returns nil the bytes read are exactly the descriptor's, the source is
    exhausted, and the reader stays at EOF *)
@@ -113,7 +124,7 @@ Theorem C05_verify_reader :
     vr_verify H comb fuel dg v = (None, v') ->
     matches_desc H dg sz out /\
     (exists rest, stream (b_evs src) = out ++ rest) /\
-    (b_lim src = None -> stream (b_evs src) = out) /\
+    (b_lim src = None -> neof (b_evs src) = 0%nat -> stream (b_evs src) = out) /\
     (forall k, vr_read comb v' k = (([], Some EEof), v')) /\
     vr_verify H comb fuel dg v' = (None, v').
 Proof. exact verify_reader_sound. Qed.
@@ -126,9 +137,91 @@ Theorem C05_copybuffer :
     copy_buffer H comb true fuel src bufsz dg sz = ((None, out), v) ->
     matches_desc H dg sz out /\
     (exists rest, stream (b_evs src) = out ++ rest) /\
-    (b_lim src = None -> stream (b_evs src) = out).
+    (b_lim src = None -> neof (b_evs src) = 0%nat -> stream (b_evs src) = out).
 Proof. exact copy_buffer_sound. Qed.
 Print Assumptions C05_copybuffer.
+
+(* ioutil.CopyBuffer into a destination that fails or short-writes after any number of
+   bytes (io.CopyBuffer's write-error / io.ErrShortWrite handling): nil only if the
+   destination took every byte, and then it holds exactly the descriptor's bytes *)
+Theorem C05_copybuffer_faulty_destination :
+  forall (H : str -> str -> str) comb fuel src bufsz dg sz w out v w',
+    copy_buffer_w H comb true fuel src bufsz dg sz w = (((None, out), v), w') ->
+    copy_buffer H comb true fuel src bufsz dg sz = ((None, out), v) /\
+    (w_mode w <> None -> (length out <= w_left w)%nat) /\
+    matches_desc H dg sz out /\
+    (b_lim src = None -> neof (b_evs src) = 0%nat -> stream (b_evs src) = out).
+Proof. exact copy_buffer_w_sound. Qed.
+Print Assumptions C05_copybuffer_faulty_destination.
+
+(* the size of the copy buffer is irrelevant: for every two buffer sizes >= 1 CopyBuffer
+   returns the same error, has written the same bytes and leaves the reader in the same
+   state (so os.File.ReadFrom's 32 KiB and the stores' 1 MiB pool buffer cannot matter) *)
+Theorem C05_copybuffer_bufsz_independent :
+  forall (H : str -> str -> str) comb fixed fuel evs b1 b2 dg sz,
+    (1 <= b1)%nat -> (1 <= b2)%nat -> (ev_weight evs < fuel)%nat ->
+    copy_buffer H comb fixed fuel (mkBase evs None) b1 dg sz = copy_buffer H comb fixed fuel (mkBase evs None) b2 dg sz.
+Proof. exact copy_buffer_bufsz_indep. Qed.
+Print Assumptions C05_copybuffer_bufsz_independent.
+
+(* the two verification paths agree: content.ReadAll (memory store, FetchAll) and
+   ioutil.CopyBuffer (OCI layout, file store; any buffer size) accept exactly the same
+   (reader, descriptor) pairs and hand on the same bytes; a memory store and an OCI layout
+   that do not hold the descriptor yet accept the same pushes and store the same bytes *)
+Theorem C05_paths_agree :
+  forall (H : str -> str -> str) comb fuel evs bufsz dg sz buf,
+    (1 <= bufsz)%nat -> (ev_weight evs < fuel)%nat -> neof evs = 0%nat ->
+    (fst (read_all H comb true fuel (mkBase evs None) dg sz) = (None, buf) <->
+     fst (copy_buffer H comb true fuel (mkBase evs None) bufsz dg sz) = (None, buf)).
+Proof. exact paths_agree. Qed.
+Print Assumptions C05_paths_agree.
+
+Theorem C05_stores_agree :
+  forall (H : str -> str -> str) comb fuel m s d evs buf,
+    (ev_weight evs < fuel)%nat -> neof evs = 0%nat -> mem_get m d = None -> oci_get s (d_dg d) = None ->
+    (mem_push H comb true fuel m d (mkBase evs None) = (None, (d, buf) :: m) <->
+     oci_push H comb true fuel s d (mkBase evs None) = (None, (d_dg d, buf) :: s)).
+Proof. exact stores_agree. Qed.
+Print Assumptions C05_stores_agree.
+
+(* readers for which io.EOF is not final, NO side condition on the script: what ReadAll
+   and CopyBuffer accept is exactly what the reader delivers before its first EOF; bytes
+   beyond Size before that EOF are always an error (what lies behind an EOF is never read) *)
+Theorem C05_accepts_exactly_upto_eof :
+  forall (H : str -> str -> str) comb fixed fuel evs bufsz dg sz,
+    (forall buf v, read_all H comb fixed fuel (mkBase evs None) dg sz = ((None, buf), v) -> upto_eof evs = buf) /\
+    (forall out v, copy_buffer H comb fixed fuel (mkBase evs None) bufsz dg sz = ((None, out), v) -> upto_eof evs = out).
+Proof. exact accepts_upto_eof. Qed.
+Print Assumptions C05_accepts_exactly_upto_eof.
+
+(* ... and the same for any use of a VerifyReader: once Verify returns nil, the bytes read
+   are exactly what the reader delivered before its first EOF *)
+Theorem C05_verify_reader_upto_eof :
+  forall (H : str -> str -> str) comb fuel evs dg sz ops v out v',
+    vr_run H comb fuel dg ops (new_vr true (mkBase evs None) dg sz) [] = (v, out) ->
+    vr_verify H comb fuel dg v = (None, v') -> upto_eof evs = out.
+Proof. exact verify_reader_upto_eof. Qed.
+Print Assumptions C05_verify_reader_upto_eof.
+
+(* ... and a successful Push (memory store, OCI layout, named file) stores exactly those bytes *)
+Theorem C05_push_stores_upto_eof :
+  forall (H : str -> str -> str) comb fuel evs d,
+    (forall fixed m m', mem_push H comb fixed fuel m d (mkBase evs None) = (None, m') -> m' = (d, upto_eof evs) :: m) /\
+    (forall s s', oci_push H comb true fuel s d (mkBase evs None) = (None, s') -> s' = (d_dg d, upto_eof evs) :: s) /\
+    (forall s name path s', name <> [] -> file_push H comb true fuel s name path d evs = (None, s') ->
+       assoc_get (f_files s') path = Some (upto_eof evs)).
+Proof. exact push_stores_upto_eof. Qed.
+Print Assumptions C05_push_stores_upto_eof.
+
+Theorem C05_trailing_before_eof_rejected :
+  forall (H : str -> str -> str) comb fuel evs d,
+    (d_sz d < Z.of_nat (length (upto_eof evs)))%Z ->
+    (forall fixed buf v, read_all H comb fixed fuel (mkBase evs None) (d_dg d) (d_sz d) <> ((None, buf), v)) /\
+    (forall bufsz out v, copy_buffer H comb true fuel (mkBase evs None) bufsz (d_dg d) (d_sz d) <> ((None, out), v)) /\
+    (forall fixed m e m', mem_push H comb fixed fuel m d (mkBase evs None) = (e, m') -> e <> None /\ m' = m) /\
+    (forall s e s', oci_push H comb true fuel s d (mkBase evs None) = (e, s') -> e <> None /\ s' = s).
+Proof. exact trailing_before_eof_rejected. Qed.
+Print Assumptions C05_trailing_before_eof_rejected.
 
 (* malformed or unsupported digest, negative size, reader shorter than Size, first
    Size bytes hashing to something else, bytes beyond Size: always an error *)
@@ -137,7 +230,7 @@ Theorem C05_trailing_short_malformed_rejected :
     (valid_digest dg = false \/ (sz < 0)%Z \/
      (Z.of_nat (length (stream (b_evs src))) < sz)%Z \/
      dg <> digest_of H (alg_of dg) (firstn (Z.to_nat sz) (stream (b_evs src))) \/
-     (b_lim src = None /\ (sz < Z.of_nat (length (stream (b_evs src))))%Z)) ->
+     (b_lim src = None /\ neof (b_evs src) = 0%nat /\ (sz < Z.of_nat (length (stream (b_evs src))))%Z)) ->
     (forall fixed buf v, read_all H comb fixed fuel src dg sz <> ((None, buf), v)) /\
     (forall out v, copy_buffer H comb true fuel src bufsz dg sz <> ((None, out), v)).
 Proof. exact C05_trailing_short_malformed_rejected_l. Qed.
@@ -147,7 +240,7 @@ Print Assumptions C05_trailing_short_malformed_rejected.
    accepted (ReadAll, CopyBuffer with any buffer, memory / OCI / named file push) *)
 Theorem C05_failing_reader_rejected :
   forall (H : str -> str -> str) comb fuel evs d,
-    In Fail evs ->
+    In Fail evs -> neof evs = 0%nat ->
     (forall fixed buf v, read_all H comb fixed fuel (mkBase evs None) (d_dg d) (d_sz d) <> ((None, buf), v)) /\
     (forall bufsz out v, copy_buffer H comb true fuel (mkBase evs None) bufsz (d_dg d) (d_sz d) <> ((None, out), v)) /\
     (forall fixed m e m', mem_push H comb fixed fuel m d (mkBase evs None) = (e, m') -> e <> None /\ m' = m) /\
@@ -177,7 +270,7 @@ Theorem C05_push_memory :
     (e = None /\ mem_get m d = None /\
      exists buf, m' = (d, buf) :: m /\ matches_desc H (d_dg d) (d_sz d) buf /\
                  (exists rest, stream (b_evs src) = buf ++ rest) /\
-                 (b_lim src = None -> stream (b_evs src) = buf))
+                 (b_lim src = None -> neof (b_evs src) = 0%nat -> stream (b_evs src) = buf))
     \/ (e <> None /\ m' = m).
 Proof. exact mem_push_spec. Qed.
 Print Assumptions C05_push_memory.
@@ -192,7 +285,7 @@ Theorem C05_push_oci :
     (e = None /\ oci_get s (d_dg d) = None /\
      exists out, s' = (d_dg d, out) :: s /\ matches_desc H (d_dg d) (d_sz d) out /\
                  (exists rest, stream (b_evs src) = out ++ rest) /\
-                 (b_lim src = None -> stream (b_evs src) = out))
+                 (b_lim src = None -> neof (b_evs src) = 0%nat -> stream (b_evs src) = out))
     \/ (e <> None /\ s' = s).
 Proof. exact oci_push_spec. Qed.
 Print Assumptions C05_push_oci.
@@ -243,6 +336,78 @@ Theorem C05_push_file_alias_refuted :
     file_exists s2' (b "a") dX = true /\ file_fetch s2' (b "a") dX = None.
 Proof. exact file_alias_refuted. Qed.
 Print Assumptions C05_push_file_alias_refuted.
+
+(* the FULL statement for the file store by names: resolveWritePath (lexical
+   filepath.Clean + traversal check) is part of the model ([file_push_name]); in every
+   history in which no pushed name resolves to the path of another name in use
+   ([no_alias], a condition on the names alone) a successful push makes matching content
+   visible and a failed one (incl. duplicate name, refused traversal) changes nothing *)
+Theorem C05_push_file_names :
+  forall (H : str -> str -> str) comb fuel s name d evs e s',
+    file_reach_names H s -> no_alias s name ->
+    file_push_name H comb true fuel s name d evs = (e, s') ->
+    (e = None ->
+       exists bs, file_fetch s' name d = Some bs /\ file_exists s' name d = true /\
+                  d_dg d = digest_of H (alg_of (d_dg d)) bs /\ valid_digest (d_dg d) = true /\
+                  ((name <> [] \/ assoc_get (f_d2p s) (d_dg d) = None) ->
+                   matches_desc H (d_dg d) (d_sz d) bs /\ exists rest, stream evs = bs ++ rest)) /\
+    (e <> None -> forall name' d', file_exists s' name' d' = file_exists s name' d' /\
+                                   file_fetch s' name' d' = file_fetch s name' d').
+Proof. exact file_push_name_spec. Qed.
+Print Assumptions C05_push_file_names.
+
+Theorem C05_file_names_visible_matches :
+  forall (H : str -> str -> str) s name d bs,
+    file_reach_names H s -> file_fetch s name d = Some bs ->
+    d_dg d = digest_of H (alg_of (d_dg d)) bs /\ valid_digest (d_dg d) = true.
+Proof. exact file_names_visible_matches. Qed.
+Print Assumptions C05_file_names_visible_matches.
+
+(* a name that leaves the working directory (cleaned form starts with "..", or absolute)
+   is refused before anything is written *)
+Theorem C05_file_traversal_refused :
+  forall (H : str -> str -> str) comb fuel s name d evs,
+    name <> [] -> name_in name (f_names s) = false -> resolve_name name = None ->
+    file_push_name H comb true fuel s name d evs = (Some ETraversal, s).
+Proof. exact file_push_traversal. Qed.
+Print Assumptions C05_file_traversal_refused.
+
+(* Store.DisableOverwrite: resolveWritePath refuses a path that exists, so nothing that
+   is visible can be clobbered: the FULL statement for EVERY name, aliases included, over
+   all histories of such a store (any mix of the other options) *)
+Theorem C05_push_file_disable_overwrite :
+  forall (H : str -> str -> str) comb o fuel s name d evs e s',
+    file_reach_do H s -> o_disable_overwrite o = true -> name <> [] ->
+    file_push_opt H comb true o fuel s name d evs = (e, s') ->
+    (e = None ->
+       exists bs, file_fetch s' name d = Some bs /\ file_exists s' name d = true /\
+                  matches_desc H (d_dg d) (d_sz d) bs /\ exists rest, stream evs = bs ++ rest) /\
+    (e <> None -> forall name' d', file_exists s' name' d' = file_exists s name' d' /\
+                                   file_fetch s' name' d' = file_fetch s name' d') /\
+    (forall name' d' bs, file_fetch s' name' d' = Some bs ->
+                         d_dg d' = digest_of H (alg_of (d_dg d')) bs /\ valid_digest (d_dg d') = true).
+Proof. exact file_disable_overwrite. Qed.
+Print Assumptions C05_push_file_disable_overwrite.
+
+(* the option-free push is the default instance; Store.IgnoreNoName discards unnamed content *)
+Theorem C05_file_options :
+  forall (H : str -> str -> str) comb fuel s name d evs,
+    file_push_opt H comb true default_opts fuel s name d evs = file_push_name H comb true fuel s name d evs /\
+    (forall o, o_ignore_noname o = true -> file_push_opt H comb true o fuel s [] d evs = (None, s)).
+Proof. exact file_options. Qed.
+Print Assumptions C05_file_options.
+
+(* Exists and Fetch agree on every reachable state (so "leaves Exists false and Fetch
+   failing" is one statement): OCI layout, and the file store with its digestToPath /
+   name status / fallback lookup *)
+Theorem C05_exists_iff_fetch :
+  forall (H : str -> str -> str),
+  (forall s d, valid_digest (d_dg d) = true ->
+     (oci_exists s d = (None, true) <-> exists bs, oci_get s (d_dg d) = Some bs)) /\
+  (forall s name d, file_reach H s ->
+     (file_exists s name d = true <-> exists bs, file_fetch s name d = Some bs)).
+Proof. exact exists_iff_fetch. Qed.
+Print Assumptions C05_exists_iff_fetch.
 
 (* bad input never gets in, whatever the store *)
 Theorem C05_push_bad_rejected :
@@ -319,6 +484,20 @@ Theorem C05_proxy :
 Proof. exact proxy_fetch_spec. Qed.
 Print Assumptions C05_proxy.
 
+(* over ALL histories of fetches through one proxy: the cache invariant, and what a cache
+   hit serves *)
+Theorem C05_proxy_histories :
+  forall (H : str -> str -> str),
+    (forall m, proxy_reach H m ->
+       forall d bs, mem_get m d = Some bs -> matches_desc H (d_dg d) (d_sz d) bs) /\
+    (forall limit stop m d comb evs ks rs ce m' bs,
+       proxy_reach H m -> mem_get m d = Some bs ->
+       proxy_fetch H limit stop m d comb evs ks = ((rs, ce), m') ->
+       matches_desc H (d_dg d) (d_sz d) bs /\ m' = m /\ ce = None /\
+       exists rest, bs = concat (map fst rs) ++ rest).
+Proof. exact proxy_histories. Qed.
+Print Assumptions C05_proxy_histories.
+
 (* concurrent pushes into one OCI layout (any number of threads, any descriptors --
    in particular good and bad content under one digest --, any schedule of their
    Stat / CreateTemp / Write / Remove / Rename micro-steps): at every instant every
@@ -333,9 +512,22 @@ Theorem C05_concurrent_same_digest :
     (forall i n st' t w, cstep H st i n = Some st' -> nth_error (c_thr st) i = Some t ->
                          t_pc t = PIngest w [] None ->
        exists w', oci_get (c_blobs st') (d_dg (t_d t)) = Some w' /\
-                  matches_desc H (d_dg (t_d t)) (d_sz (t_d t)) w' /\ stream (t_evs t) = w').
+                  matches_desc H (d_dg (t_d t)) (d_sz (t_d t)) w' /\ (neof (t_evs t) = 0%nat -> stream (t_evs t) = w')).
 Proof. exact C05_concurrent_same_digest_l. Qed.
 Print Assumptions C05_concurrent_same_digest.
+
+(* ... and for every reader script (EOF not final): the bytes a successful concurrent push
+   puts under blobs/ are exactly what its reader delivered before its first EOF *)
+Theorem C05_concurrent_oci_upto_eof :
+  forall (H : str -> str -> str) blobs ts sched st,
+    oci_reach H blobs -> Forall (fun t => t_pc t = PStart) ts ->
+    crun H (mkC blobs ts) sched = Some st ->
+    forall i n st' t w, cstep H st i n = Some st' -> nth_error (c_thr st) i = Some t ->
+      t_pc t = PIngest w [] None ->
+      oci_get (c_blobs st') (d_dg (t_d t)) = Some (upto_eof (t_evs t)) /\
+      matches_desc H (d_dg (t_d t)) (d_sz (t_d t)) (upto_eof (t_evs t)).
+Proof. exact concurrent_oci_upto. Qed.
+Print Assumptions C05_concurrent_oci_upto_eof.
 
 (* the same for one cas.Memory (directly or through LimitedStorage): Load, ReadAll,
    LoadOrStore of any number of threads in any order *)
@@ -358,6 +550,35 @@ Theorem C05_concurrent_memory_explored :
 Proof. exact explore_m_reachable. Qed.
 Print Assumptions C05_concurrent_memory_explored.
 
+(* concurrent NAMED pushes into one file.Store (any number of threads: good and bad
+   content, one digest under several names, one name several times; per-name lock,
+   duplicate check, resolveWritePath, Create, CopyBuffer, record-or-remove), any
+   schedule, provided no two different names in play ([U]) resolve to one path: at every
+   instant what Fetch serves hashes to the digest asked for, and a push that reports
+   success has made its reader's exact bytes visible under its name *)
+Theorem C05_concurrent_file :
+  forall (H : str -> str -> str) (U : list str),
+    (forall a c, In a U -> In c U -> resolve_name a = resolve_name c -> a = c) ->
+    forall s ts sched st,
+    file_reach_names H s -> (forall n, name_in n (f_names s) = true -> In n U) ->
+    Forall (fun t => ft_pc t = FStart /\ In (ft_name t) U) ts ->
+    frun H (mkFC s ts) sched = Some st ->
+    (forall name d bs, file_fetch (fc_st st) name d = Some bs ->
+                       d_dg d = digest_of H (alg_of (d_dg d)) bs /\ valid_digest (d_dg d) = true) /\
+    (forall i st' t out path, fstep H st i = Some st' -> nth_error (fc_thr st) i = Some t ->
+       ft_pc t = FWrite None out path ->
+       file_fetch (fc_st st') (ft_name t) (ft_d t) = Some out /\
+       matches_desc H (d_dg (ft_d t)) (d_sz (ft_d t)) out /\ (neof (ft_evs t) = 0%nat -> stream (ft_evs t) = out)).
+Proof. exact file_concurrent. Qed.
+Print Assumptions C05_concurrent_file.
+
+(* the outcome set file-store races are compared with consists of runs of that system *)
+Theorem C05_concurrent_file_explored :
+  forall (H : str -> str -> str) fuel st st',
+    In st' (explore_f H fuel st) -> exists sched, frun H st sched = Some st'.
+Proof. exact explore_f_reachable. Qed.
+Print Assumptions C05_concurrent_file_explored.
+
 (* the outcome set the implementation's concurrent runs are compared with (exhaustive
    interleaving of the micro-steps, [explore]) consists of runs of the transition
    system only, so the invariant above holds for each of those outcomes *)
@@ -370,6 +591,50 @@ Theorem C05_concurrent_explored :
                    dg = digest_of H (alg_of dg) bs /\ valid_digest dg = true).
 Proof. exact C05_concurrent_explored_l. Qed.
 Print Assumptions C05_concurrent_explored.
+
+(* the explorers are also COMPLETE: every schedule (for the OCI system: with unsplit
+   Writes) that runs until no thread can move ends in a listed state, so the sets the
+   implementation's races are compared with are exactly the terminal states of the three
+   transition systems; and a finished OCI race leaves nothing under ingest/ *)
+Theorem C05_explorers_complete :
+  forall (H : str -> str -> str),
+  (forall big sched fuel st st',
+     crun H st (map (fun i => (i, big)) sched) = Some st' -> (forall i, cstep H st' i big = None) ->
+     (length sched < fuel)%nat -> In st' (explore H fuel big st)) /\
+  (forall sched fuel st st',
+     mrun H st sched = Some st' -> (forall i, mstep H st' i = None) ->
+     (length sched < fuel)%nat -> In st' (explore_m H fuel st)) /\
+  (forall sched fuel st st',
+     frun H st sched = Some st' -> (forall i, fstep H st' i = None) ->
+     (length sched < fuel)%nat -> In st' (explore_f H fuel st)) /\
+  (forall st, Forall (fun t => exists r, t_pc t = PDone r) (c_thr st) -> ingest_files st = []).
+Proof. exact explorers_complete. Qed.
+Print Assumptions C05_explorers_complete.
+
+(* ... and the restriction to unsplit Writes loses nothing: every schedule of the OCI
+   system, with the Writes split in any way, that runs from "no push started" to "every push
+   done" ends in a state that an unsplit schedule reaches too, i.e. in an explored outcome
+   (big = any bound on the bytes of each reader script, as the correspondence uses) *)
+Theorem C05_split_writes_explored :
+  forall (H : str -> str -> str) big blobs ts sched st',
+    Forall (fun t => t_pc t = PStart /\ (length (stream (t_evs t)) <= S big)%nat) ts ->
+    crun H (mkC blobs ts) sched = Some st' ->
+    Forall (fun t => exists r, t_pc t = PDone r) (c_thr st') ->
+    exists is, crun H (mkC blobs ts) (map (fun i => (i, big)) is) = Some st' /\
+               forall fuel, (length is < fuel)%nat -> In st' (explore H fuel big (mkC blobs ts)).
+Proof. exact split_writes. Qed.
+Print Assumptions C05_split_writes_explored.
+
+(* ... in particular with the fuel 4 * threads + 2 that the correspondence gives the
+   explorer: every finished race of the OCI system is in the compared outcome set *)
+Theorem C05_explorer_fuel :
+  forall (H : str -> str -> str) big blobs ts sched st',
+    Forall (fun t => t_pc t = PStart /\ (length (stream (t_evs t)) <= S big)%nat) ts ->
+    crun H (mkC blobs ts) sched = Some st' ->
+    Forall (fun t => exists r, t_pc t = PDone r) (c_thr st') ->
+    In st' (explore H (4 * length ts + 2) big (mkC blobs ts)).
+Proof. exact split_writes_fuel. Qed.
+Print Assumptions C05_explorer_fuel.
 
 (* the behaviour before the repair (NewVerifyReader accepted a negative Size): the
    CopyBuffer path stored the empty blob under a descriptor of size -1 *)
@@ -434,4 +699,14 @@ Example C05_ex_proxy :
   let '((r2, c2), m2) := proxy_fetch toyH None false m1 d false [Data [9]] [5; 1]%nat in
   let '((r3, c3), m3) := proxy_fetch toyH None false [] d false [Data [1;2;3;4]] [3; 5; 1]%nat in
   (c1, m1, map fst r2, c2, c3, m3) = (None, [(d, [1;2;3])], [[1;2;3]; []], None, Some ETrailing, []).
+Proof. vm_compute. reflexivity. Qed.
+
+(* io.EOF is not final for an arbitrary reader: what lies behind an EOF is never read
+   (first script: accepted), an EOF before Size bytes is an error even if more data would
+   follow, and after (data, EOF) in one call more data is trailing data *)
+Example C05_ex_eof_not_final :
+  (fst (read_all toyH false true 20 (mkBase [Data [1;2;3]; Eof; Data [9]] None) (toy_dg [1;2;3]) 3),
+   fst (fst (read_all toyH false true 20 (mkBase [Data [1;2]; Eof; Data [3]] None) (toy_dg [1;2;3]) 3)),
+   fst (fst (copy_buffer toyH true true 20 (mkBase [Data [1;2;3]; Eof; Data [9]] None) 2 (toy_dg [1;2;3]) 3)))
+  = ((None, [1;2;3]), Some EUnexpEof, Some ETrailing).
 Proof. vm_compute. reflexivity. Qed.
